@@ -24,6 +24,15 @@ func (e *Exec) waitUntil(cond func() bool, why string) {
 		return
 	}
 	if e.threads == nil {
+		// deferred-goroutine mode: let the queued goroutines run, they may unblock us
+		for len(e.pendingGo) > 0 && !cond() {
+			g := e.pendingGo[0]
+			e.pendingGo = e.pendingGo[1:]
+			e.callFunc(g.fv, g.args, "go")
+		}
+		if cond() {
+			return
+		}
 		e.abort("harness-error", "deadlock (single thread): %s", why)
 	}
 	e.threadWait(cond, why)
